@@ -36,7 +36,7 @@ func (c *hctx) Err() error {
 	defer c.w.mu.Unlock()
 	return c.err
 }
-func (c *hctx) Deadline() (time.Time, bool)     { return c.deadline, c.hasDeadline }
+func (c *hctx) Deadline() (time.Time, bool) { return c.deadline, c.hasDeadline }
 
 // errCause is what Cause() reports for every ended harness context: a value different from
 // Err(), as for a context made by WithCancelCause / WithTimeoutCause. Dial has to report the
@@ -98,6 +98,11 @@ type world struct {
 	parked  []*call
 	nextID  int
 	aborted bool
+
+	// partialWrites: a write cut by a deadline reports half of its bytes as transferred
+	partialWrites bool
+	// deadlineCuts: conn reads/writes that ended because a deadline had passed
+	deadlineCuts int
 
 	// conn state
 	connMade    bool
@@ -236,6 +241,12 @@ func (w *world) release(c *call, opt string) string {
 		case !w.wDeadline.IsZero() && !w.wDeadline.After(w.now):
 			a.err = timeoutErr{}
 			label = "write:timeout"
+			w.deadlineCuts++
+			if w.partialWrites && len(c.p) > 1 {
+				a.n = len(c.p) / 2
+				w.written = append(w.written, c.p[:a.n]...)
+				label = "write:timeout-after-half"
+			}
 		default:
 			w.written = append(w.written, c.p...)
 			a.n = len(c.p)
@@ -249,6 +260,7 @@ func (w *world) release(c *call, opt string) string {
 		case !w.rDeadline.IsZero() && !w.rDeadline.After(w.now):
 			a.err = timeoutErr{}
 			label = "read:timeout"
+			w.deadlineCuts++
 		default:
 			if w.readsServed < len(w.peer.chunks) {
 				ch := w.peer.chunks[w.readsServed][w.respOff:]
